@@ -105,6 +105,20 @@ class Harness:
         self.front._clocked = set()
         self.front._running = False
 
+    def reset(self):
+        """Simulator.reset(), plus removal of the trigger wakers earlier runs left on the signal slots (the engine drops
+        them lazily, the next time they fire; a re-execution must start from the same waker lists as the first run)."""
+        self.front.reset()
+        self.sim.interp.effects.clear()
+        self.sim.interp.raised.clear()
+        for s in self.engine._state.slots:
+            s.wakers[:] = [w for w in s.wakers if "_PyTriggerState" not in getattr(w, "__qualname__", "")]
+
+    def declare(self, *signals):
+        """Give signals that only processes / testbenches use a slot now, so that every run names and orders them alike."""
+        for sg in signals:
+            self.engine._state.get_signal(sg)
+
     def add_clock(self, domain, phase, period):
         """phase / period: femtoseconds (ints or proxies), or None for the default phase."""
         before = list(self.engine._processes)
@@ -375,8 +389,151 @@ def replay_pair(spec, i, j, vals):
 
 
 # ---------------------------------------------------------------------------------------- part B/C: whole-engine runs under injected orders
+def gen_script(r, tb, n_ops, allow_changed):
+    """A testbench script: list of operations over the signals of the generated scenario."""
+    ops = []
+    for k in range(n_ops):
+        c = r.random()
+        if c < 0.08:
+            ops.append(["setslice", r.choice(["a", "p"]), r.choice([[0, 1], [1, 3], [0, 2]]), f"s{tb}_{k}"])
+        elif c < 0.25:
+            nm = r.choice(["a", "b"])
+            ops.append(["set", nm, f"s{tb}_{k}"])
+        elif c < 0.45:
+            ops.append(["get", r.choice(["y", "z", "o", "r1", "r2", "q", "w", "p", "p"])])
+        elif c < 0.7:
+            ops.append(["tick", r.choice(["sync", "d2"]), r.sample(["r1", "r2", "y", "q", "a"], r.randint(0, 2))])
+        elif c < 0.82:
+            ops.append(["delay", r.choice([125, 250, 500, 1000])])
+        elif c < 0.92 or not allow_changed:
+            ops.append(["edge", r.choice(["sync", "d2"]), r.choice([0, 1])])
+        else:
+            ops.append(["changed", r.choice(["y", "r2", "z"])])
+    return ops
+
+
+def show_script(ops):
+    out = []
+    for op in ops:
+        if op[0] == "set":
+            out.append(f"set({op[1]}, {op[2]})")
+        elif op[0] == "setslice":
+            out.append(f"set({op[1]}[{op[2][0]}:{op[2][1]}], {op[3]})")
+        elif op[0] == "get":
+            out.append(f"get({op[1]})")
+        elif op[0] == "tick":
+            out.append(f"await tick({op[1]!r}).sample({', '.join(op[2])})")
+        elif op[0] == "delay":
+            out.append(f"await delay({op[1]} fs)")
+        elif op[0] == "edge":
+            out.append(f"await edge({op[1]}.clk, {op[2]})")
+        else:
+            out.append(f"await changed({op[1]})")
+    return "; ".join(out)
+
+
+def build_generated(spec):
+    """A seeded scenario: two clock domains with their own phases/periods, a child fragment, optional processes, two
+    testbench scripts of set / get / tick+sample / delay / edge / changed operations."""
+    r = random.Random(spec["gen"])
+    obs = []
+    m = Module()
+    cd, d2 = ClockDomain("sync"), ClockDomain("d2")
+    m.domains += [cd, d2]
+    S_ = {n: Signal(w, name=n) for n, w in (("a", 3), ("b", 2), ("r1", 3), ("r2", 3), ("y", 3), ("z", 4), ("o", 4), ("q", 2), ("w", 4), ("p", 4))}
+    a, b, r1, r2, y, z, o, q, w = (S_[n] for n in ("a", "b", "r1", "r2", "y", "z", "o", "q", "w"))
+    m.d.sync += r1.eq(r1 + a)
+    with m.If(b[0]):
+        m.d.sync += q.eq(q + 1)
+    m.d.d2 += r2.eq(r1 ^ b)
+    m.d.comb += y.eq(r1 ^ a)
+    child = Module()
+    child.d.comb += z.eq(r2 + y)
+    m.submodules.child = child
+    h = Harness(m)
+    h.declare(*S_.values())
+    (p1, per1), (p2, per2) = r.choice([(500, 1000), (250, 1000)]), r.choice([(500, 1000), (300, 600), (750, 1000), (250, 1000)])
+    h.add_clock(cd, p1, per1)
+    h.add_clock(d2, p2, per2)
+    text = [f"clocks sync {p1}+k*{per1 // 2} fs, d2 {p2}+k*{per2 // 2} fs"]
+    if r.random() < 0.7:
+        async def adder(ctx):
+            async for av, r2v in ctx.changed(a, r2):
+                ctx.set(o, av + r2v)
+        h.add_process(adder)
+        text.append("process o := a + r2 on changed(a, r2)")
+    if r.random() < 0.6:
+        async def follower(ctx):
+            async for clk_edge, rst_value, r1v in ctx.tick("d2").sample(r1):
+                if clk_edge:
+                    ctx.set(w, r1v + 1)
+        h.add_process(follower)
+        text.append("process w := r1 + 1 at d2 edges")
+    p = S_["p"]
+    if r.random() < 0.5:
+        # two processes write the two halves of one signal at the same edges
+        async def p_low(ctx):
+            async for clk_edge, rst_value, r1v in ctx.tick().sample(r1):
+                if clk_edge:
+                    ctx.set(p[0:2], r1v)
+
+        async def p_high(ctx):
+            async for clk_edge, rst_value, qv in ctx.tick().sample(q):
+                if clk_edge:
+                    ctx.set(p[2:4], qv + 1)
+        h.add_process(p_low)
+        h.add_process(p_high)
+        text.append("processes p[0:2] := r1, p[2:4] := q + 1 at sync edges")
+    scripts = [gen_script(r, 0, r.randint(3, 6), False), gen_script(r, 1, r.randint(2, 4), True)]
+    if r.random() < 0.5:
+        scripts.append([["changed", r.choice(["y", "z"])], ["get", r.choice(["a", "p", "o", "z"])], ["set", "b", "s2_2"], ["changed", "y"], ["get", "a"]])
+    values = {}
+    for t_, ops in enumerate(scripts):
+        for op in ops:
+            if op[0] == "set":
+                values[op[2]] = fresh(op[2], len(S_[op[1]]), False)
+            elif op[0] == "setslice":
+                values[op[3]] = fresh(op[3], op[2][1] - op[2][0], False)
+    doms = {"sync": cd, "d2": d2}
+
+    def make(tb, ops):
+        async def script(ctx):
+            for k, op in enumerate(ops):
+                tag = f"tb{tb}.{k} {op[0]}"
+                if op[0] == "set":
+                    ctx.set(S_[op[1]], values[op[2]])
+                elif op[0] == "setslice":
+                    ctx.set(S_[op[1]][op[2][0]:op[2][1]], values[op[3]])
+                elif op[0] == "get":
+                    obs.append((f"{tag}({op[1]})", ctx.get(S_[op[1]])))
+                elif op[0] == "tick":
+                    res = await ctx.tick(op[1]).sample(*[S_[n] for n in op[2]])
+                    for n, v in zip(op[2], res[2:]):
+                        obs.append((f"{tag} sample {n}", v))
+                    obs.append((f"{tag} time", ctx.elapsed_time().femtoseconds))
+                elif op[0] == "delay":
+                    await ctx.delay(period_fs(op[1]))
+                    obs.append((f"{tag} time", ctx.elapsed_time().femtoseconds))
+                elif op[0] == "edge":
+                    await ctx.edge(doms[op[1]].clk, op[2])
+                    obs.append((f"{tag} time", ctx.elapsed_time().femtoseconds))
+                else:
+                    v = await ctx.changed(S_[op[1]])
+                    obs.append((f"{tag} value", v[0]))
+                    obs.append((f"{tag} time", ctx.elapsed_time().femtoseconds))
+        return script
+    order = list(range(len(scripts)))
+    r.shuffle(order)                      # the order of adding is the order of running
+    for t_ in order:
+        h.add_testbench(make(t_, scripts[t_]), background=(t_ != 0))
+    text += [f"testbenches added in the order {order}"] + [f"tb{t_}{'' if t_ == 0 else ' (background)'}: " + show_script(sc) for t_, sc in enumerate(scripts)]
+    return h, obs, [cd.rst, d2.rst], " | ".join(text)
+
+
 def build_engine_scenario(name):
     """Returns (harness, obs list, variables dict, description).  The testbench appends ('label', value) or ('label', got, want)."""
+    if isinstance(name, dict):
+        return build_generated(name)
     obs = []
     if name == "two-domains":
         m = Module()
@@ -559,7 +716,7 @@ def engine_job(job):
     _async.Const = _ConstShim
     try:
         h, obs, concrete, text = build_engine_scenario(name)
-        base["program"] = f"{name}: {text}"
+        base["program"] = f"{name if isinstance(name, str) else 'generated #' + str(name['gen'])}: {text}"
         n = len(h.all_processes())
         r = random.Random(job.get("seed", 0))
         perms = list(itertools.permutations(range(n))) if n <= 4 else None
@@ -576,7 +733,7 @@ def engine_job(job):
 
             def scen():
                 obs.clear()
-                h.sim.reset()
+                h.reset()
                 h.install_order(perm, reverse_sets=rev)
                 h.sim.sym_state("v", concrete=concrete)
                 h.run()
@@ -605,7 +762,11 @@ def engine_job(job):
                     if timed_check(s) != z3.sat:
                         continue
                 if len(p.value) != len(q.value) or [o[0] for o in p.value] != [o[0] for o in q.value]:
-                    return [_engine_violation(base, job, perm, rev, f"different observation sequence: {[o[0] for o in q.value]} vs {[o[0] for o in p.value]}")]
+                    vals = {}
+                    if s.check() == z3.sat:
+                        mdl = s.model()
+                        vals = {str(d): mdl[d].as_long() for d in mdl.decls()}
+                    return [_engine_violation(base, job, perm, rev, f"different observation sequence: {[o[0] for o in q.value]} vs {[o[0] for o in p.value]} with {vals}", vals)]
                 diffs, labels = [], []
                 for o0, o1 in zip(p.value, q.value):
                     ne = neq_terms(o0[1], o1[1])
@@ -636,7 +797,7 @@ def _engine_violation(base, job, perm, rev, what, vals=None):
     rep = replay_engine(job["scenario"], perm, rev, vals or {})
     if rep:
         return dict(base, status=VIOLATION, detail=f"{base['program']}: order {perm}{' (reversed sets)' if rev else ''}: {what}; real engine: {rep}",
-                    signature={"kind": "engine", "scenario": job["scenario"]}, replay={"what": "engine", "scenario": job["scenario"], "perm": list(perm), "rev": rev, "model": vals or {}})
+                    signature={"kind": "engine", "scenario": job["scenario"] if isinstance(job["scenario"], str) else "generated"}, replay={"what": "engine", "scenario": job["scenario"], "perm": list(perm), "rev": rev, "model": vals or {}})
     return dict(base, status=UNREPRODUCED, detail=f"order {perm}: {what}; the real state classes give the documented trace")
 
 
@@ -747,7 +908,7 @@ def time_job(job):
 
     def scen():
         obs.clear()
-        h.sim.reset()
+        h.reset()
         h.install_order(tuple(range(len(h.all_processes()))))
         h.run()
         return list(obs)
@@ -905,6 +1066,8 @@ def main(tier, seed):
         jobs.append({"id": f"pair-{i:04d}", "what": "pair", "spec": spec})
     for name in ("two-domains", "counter-process", "two-testbenches", "partial-sets", "three-testbenches"):
         jobs.append({"id": f"engine-{name}", "what": "engine", "scenario": name, "seed": seed, "orders": 12 if tier == "quick" else 120})
+    for k in range(10 if tier == "quick" else 200):
+        jobs.append({"id": f"engine-gen-{k:04d}", "what": "engine", "scenario": {"gen": seed * 1000 + k}, "seed": seed + k, "orders": 8 if tier == "quick" else 24})
     jobs.append({"id": "time-delays", "what": "time", "toggles": 2 if tier == "quick" else 4, "delays": True})
     jobs.append({"id": "time-clock", "what": "time", "toggles": 6 if tier == "quick" else 10, "delays": False})
     jobs.append({"id": "time-zero-phase", "what": "time", "toggles": 4, "delays": False, "concrete": {"phase": 0, "half": 5}})
@@ -921,7 +1084,7 @@ def main(tier, seed):
                      "amaranth.sim.pysim._PyTimeline", "amaranth.sim.pysim._PyTriggerState", "amaranth.sim.pysim._PySignalState / _PyMemoryState (two-phase update, via the state-class proof)",
                      "amaranth.sim._pyclock.PyClockProcess", "amaranth.sim._async.AsyncProcess / TestbenchContext / ProcessContext / TickTrigger / TriggerCombination",
                      "amaranth.sim._pyrtl compiled processes"]
-    rep.bounds = {"pair_designs": sum(1 for j in jobs if j["what"] == "pair"), "engine_scenarios": 5, "orders_per_scenario": "all n! for n <= 4 processes, else identity, reverse and seeded random orders "
+    rep.bounds = {"pair_designs": sum(1 for j in jobs if j["what"] == "pair"), "engine_scenarios": "5 hand-written + 10 (quick) / 200 (thorough) generated (two clock domains with seeded phases/periods, child fragment, up to two processes, two testbench scripts of <= 6 and <= 4 operations)", "orders_per_scenario": "all n! for n <= 4 processes, else identity, reverse and seeded random orders "
                   "(12 quick / 120 thorough), each also with the pending-set and trigger-set orders reversed", "time": "phase, half period, delays < 2**16 fs; clock alone: 6 (quick) / 10 (thorough) toggles; clock with two chained delays: 2 / 4 toggles, both delays expiring no later than the last observed toggle",
                   "outside": "odd periods (the half period is floor(period/2)); float arithmetic inside Period(...); VCD writers; more than two testbenches"}
     rep.stubs = ["HSignalState / HMemoryState (proved equal to the genuine classes by the state-class obligations)", "amaranth.sim._async.Const.cast on proxies (identity on the value)",
